@@ -8,6 +8,7 @@ import (
 	"os"
 	"path/filepath"
 	"testing"
+	"time"
 
 	"github.com/oklog/ulid/v2"
 
@@ -150,6 +151,9 @@ var c14Assert = map[string]bool{"placement": true, "content": true, "meta": true
 
 func init() {
 	sx.Register(&sx.Spec{Name: "C14", Buckets: []string{"bka"}, Keys: []string{"k1", "k2"}, Assert: c14Assert, Alphabet: c14Alphabet(false), Extra: c14Placement})
+	// a transition that FAILS (injected part-store / commit failure) must leave every object readable
+	sx.Register(&sx.Spec{Name: "C14fail", Buckets: []string{"bka"}, Keys: []string{"k1", "k2"}, Assert: map[string]bool{"content": true, "exist": true},
+		Alphabet: c14Alphabet(false), Faults: true, FaultOracle: c01AfterFailure})
 	sx.Register(&sx.Spec{Name: "C14remap", Buckets: []string{"bka"}, Keys: []string{"k1", "k2"}, Assert: c14Assert, Alphabet: c14Alphabet(true), Extra: c14Placement})
 }
 
@@ -157,7 +161,7 @@ func TestC14(t *testing.T) {
 	run := ev.NewRun("C14", "model_checking")
 	run.Assumptions = []string{"named stores: default + cold (filesystem), default SQL + cold filesystem", "placement read from the parts table and the store directories"}
 	seeds := [][]sx.Op{{{Kind: "CreateBucket", B: "bka"}},
-		{{Kind: "CreateBucket", B: "bka"}, {Kind: "Put", B: "bka", K: "k1", Body: "P5"}, {Kind: "Put", B: "bka", K: "k2", Body: "P5"}}, // shared (deduplicated) part
+		{{Kind: "CreateBucket", B: "bka"}, {Kind: "Put", B: "bka", K: "k1", Body: "P5"}, {Kind: "Put", B: "bka", K: "k2", Body: "P5"}},     // shared (deduplicated) part
 		{{Kind: "CreateBucket", B: "bka"}, {Kind: "Append", B: "bka", K: "k1", Body: "a"}, {Kind: "Append", B: "bka", K: "k1", Body: "a"}}} // one object referencing the same part twice
 	a := &sx.Search{Run: run, TestRun: "^TestWorker$", Seeds: seeds, Stacks: []string{world.StackNamed, world.StackNamedSQL}, Spec: sx.SpecByName("C14"), Depth: 2}
 	b := &sx.Search{Run: run, TestRun: "^TestWorker$", Seeds: seeds, Stacks: []string{world.StackNamed}, Spec: sx.SpecByName("C14remap"), Depth: 2}
@@ -166,9 +170,17 @@ func TestC14(t *testing.T) {
 	} else {
 		a.DepthFor = map[string]int{world.StackNamed: 3}
 	}
+	fl := &sx.Search{Run: run, TestRun: "^TestWorker$", Stacks: []string{world.StackNamed}, Spec: sx.SpecByName("C14fail"), Depth: 1,
+		Seeds: [][]sx.Op{{{Kind: "CreateBucket", B: "bka"}, {Kind: "Put", B: "bka", K: "k1", Body: "P5"}, {Kind: "Put", B: "bka", K: "k2", Body: "a", Opt: map[string]string{"class": "GLACIER"}}}}}
+	if !quick() {
+		fl.Depth = 2
+	}
+	fl.Until = time.Now().Add(time.Until(run.Deadline()) / 4)
+	fl.Explore()
 	a.Explore()
 	b.Explore()
 	a.Merge(b)
+	a.Merge(fl)
 	a.Coverage()
 	fmt.Printf("C14: states=%d transitions=%d depth=%v\n", a.States, a.Transitions, a.DepthDone)
 	finish(t, run)
